@@ -167,9 +167,9 @@ func NewGen(r *hx.Rand, max int) *Gen { return &Gen{R: r, next: 100, Max: max} }
 
 func (g *Gen) Fresh() int { g.next++; return g.next }
 
-func vi(n int64) *Val   { return &Val{K: "i", Int: strconv.FormatInt(n, 10)} }
-func vu(n uint64) *Val  { return &Val{K: "i", Int: strconv.FormatUint(n, 10)} }
-func vs(s string) *Val  { return &Val{K: "s", Str: []byte(s)} }
+func vi(n int64) *Val  { return &Val{K: "i", Int: strconv.FormatInt(n, 10)} }
+func vu(n uint64) *Val { return &Val{K: "i", Int: strconv.FormatUint(n, 10)} }
+func vs(s string) *Val { return &Val{K: "s", Str: []byte(s)} }
 func vf64(f float64) *Val {
 	b := math.Float64bits(f)
 	return &Val{K: "f", Neg: b>>63 == 1, Mag: b &^ (1 << 63)}
@@ -294,6 +294,15 @@ func (g *Gen) pool(t *Type, env map[int]*Type, depth int) []*Val {
 		if len(sub) > 2 {
 			out = append(out, mk(nil, sub[2]), mk(nil, v0, sub[2]))
 		}
+		if u := t.Elem.Under(env); u.K == KBasic {
+			// a short slice in front of a long spare capacity (the head of a read buffer), and the same
+			// contents without it
+			spare := make([]*Val, 70)
+			for i := range spare {
+				spare[i] = v1
+			}
+			out = append(out, mk(spare, v0, v1), mk(nil, v0, v1))
+		}
 		if u := t.Elem.Under(env); u.K == KPtr && depth > 1 {
 			// internally shared sub-structure: the same pointer twice
 			for _, s := range sub {
@@ -325,6 +334,31 @@ func (g *Gen) pool(t *Type, env map[int]*Type, depth int) []*Val {
 				c.Elems = append(c.Elems, g.cl(sub[1]))
 			}
 			out = append(out, c)
+		}
+		// every element owns memory (the first pool entries of slices/maps/pointers are nil and empty):
+		// the two longest distinct element values, in both arrangements
+		if t.N > 0 {
+			ep := g.pool(t.Elem, env, depth)
+			r1, r2 := ep[0], ep[0]
+			for _, c := range ep {
+				if n := len(c.Sexp()); n > len(r1.Sexp()) {
+					r1, r2 = c, r1
+				} else if n > len(r2.Sexp()) && c != r1 {
+					r2 = c
+				}
+			}
+			if r1 != ep[0] {
+				a, b := &Val{K: "a"}, &Val{K: "a"}
+				for i := 0; i < t.N; i++ {
+					x, y := r1, r2
+					if i%2 == 1 {
+						x, y = r2, r1
+					}
+					a.Elems = append(a.Elems, g.cl(x))
+					b.Elems = append(b.Elems, g.cl(y))
+				}
+				out = append(out, a, b)
+			}
 		}
 		return out
 	case KMap:
@@ -383,11 +417,49 @@ func (g *Gen) pool(t *Type, env map[int]*Type, depth int) []*Val {
 			out = append(out, mk(k0, rich))
 			if len(keys) > 1 {
 				out = append(out, mk(keys[1], v0, k0, rich), mk(k0, rich, keys[1], rich))
+				// two entries that own memory of the same shape but with different contents
+				rich2 := ep[0]
+				for _, c := range ep {
+					if c != rich && len(c.Sexp()) > len(rich2.Sexp()) {
+						rich2 = c
+					}
+				}
+				if rich2 != ep[0] {
+					out = append(out, mk(k0, rich, keys[1], rich2), mk(keys[1], rich2, k0, rich))
+				}
 			}
 		}
 		// two different string keys with the same derived hash (31*'A'+'a' = 31*'B'+'B')
 		if u := t.Key.Under(env); u.K == KBasic && u.Basic == "string" {
 			out = append(out, mk(vs("Aa"), v0, vs("BB"), v1), mk(vs("BB"), v1, vs("Aa"), v0), mk(vs("BB"), v0, vs("Aa"), v1))
+		}
+		// a map with more entries than any small constant, populated in two different orders
+		if u := t.Key.Under(env); u.K == KBasic {
+			var big []*Val
+			switch u.Basic {
+			case "int", "int16", "int32", "int64", "uint", "uint16", "uint32", "uint64":
+				for i := 0; i < 70; i++ {
+					big = append(big, vi(int64(1000+7*i)))
+				}
+			case "string":
+				for i := 0; i < 70; i++ {
+					big = append(big, vs(fmt.Sprintf("k%02d", (i*37)%70)))
+				}
+			}
+			if big != nil {
+				var fw, bw []*Val
+				for i := range big {
+					v := v0
+					if i%3 == 1 {
+						v = v1
+					}
+					fw = append(fw, big[i], v)
+				}
+				for i := len(big) - 1; i >= 0; i-- {
+					bw = append(bw, fw[2*i], fw[2*i+1])
+				}
+				out = append(out, mk(fw...), mk(bw...))
+			}
 		}
 		// a -0 key where +0 is in the pool (same key under ==, different bits)
 		for _, k := range kp {
